@@ -80,6 +80,30 @@ CLAIMED = {
         "explicit rounding budget), lmfit; ordered-field theorems do not transfer to IEEE doubles.",
         "Lean 4 proof over an ordered field (Mathlib) + exact-rational correspondence + implementation oracle",
         "DESIGN.md §5 C04"),
+    "C05": (
+        "Machine-checked Lean 4 proof over an arbitrary linearly ordered field about a hand model of the range "
+        "logic of IndentationFitter.fit/_fit: a point is used iff it belongs to the requested segment and lies in "
+        "the closed interval spanned by the two bounds (zero width = whole segment, inverted intervals "
+        "normalised, other segment never), relative-cp intervals are anchored at the previous pass' contact point, "
+        "xmin/xmax are the extreme used abscissae in uncorrected units for every k>0, the plateau scan grid has n "
+        "points from xmin to xmin/20 and is strictly increasing. Tied by exact-rational correspondence with the "
+        "'fit range' column (per-pass contact points recorded from lmfit). Partial: convergence of the passes "
+        "and the plateau detection are explored by the oracle.",
+        "Trusted: Lean kernel, standard axioms, hand model (sampled exact correspondence), lmfit, scipy.signal.",
+        "Lean 4 proof over an ordered field (Mathlib) + exact-rational mask correspondence + implementation oracle",
+        "DESIGN.md §5 C05"),
+    "C13": (
+        "Machine-checked Lean 4 proof, for EVERY model function g (the quantifier over user programs), about a "
+        "hand model of model_direction_agnostic and the default residual: the wrapper fails only on an empty "
+        "abscissa, g always receives approach-ordered data (first >= last), the output has the abscissa's shape "
+        "for length-preserving g, point-wise g is evaluated point by point in the caller's order, reversing the "
+        "abscissa reverses the output, and the default residual is (data - model) x weights. Tied by exact "
+        "correspondence with deliberately order-sensitive harness models registered in the real registry. "
+        "Partial: translation/baseline/linearity/monotonicity/continuity are theorems only for the regenerated "
+        "shipped model functions (Props/C02); for user models they are monitored by the contract oracle.",
+        "Trusted: Lean kernel, standard axioms, hand model (exact sampled correspondence), numpy slicing.",
+        "Lean 4 proof (quantified over all model functions) + exact correspondence + contract oracle on every "
+        "registered model", "DESIGN.md §5 C13"),
 }
 
 PENDING_REASON = "check not built yet in this round (planned, see DESIGN.md §8); not claimed until its machinery exists"
